@@ -97,6 +97,12 @@ Special ==
        Prog("x-zerotrip", << Loop(K(0), I, << Upd(A, 1) >>), Upd(Bv, 2) >>, <<"zerotrip">>),
        Prog("x-elseif", << IfElse(Conds[3], << Upd(A, 1) >>, << IfElse(Conds[1], << Upd(A, 2) >>, << Upd(A, 3) >>) >>) >>, <<"elseif">>),
        Prog("x-overlap", << Store(FALSE, 32, EA, A), Store(FALSE, 16, Bin("+", EA, K(1)), Bv), Set(A, Load(FALSE, 32, EA)) >>, <<"overlap">>),
+       Prog("x-emptyfirst", << Loop(N, I, << Empty, Upd(A, 1) >>) >>, <<"emptyinloop">>),
+       Prog("x-emptymid", << Loop(Bin("+", N, K(1)), I, << Upd(A, 1), Empty, Upd(Bv, 2) >>) >>, <<"emptyinloop">>),
+       Prog("x-emptyif", << Loop(N, I, << If(Conds[1], << Upd(A, 1), Empty >>), Upd(Bv, 2) >>) >>, <<"emptyinloop">>),
+       Prog("x-emptynested", << Loop(N, I, << Loop(K(2), J, << Empty, Upd(A, 1) >>), Upd(Bv, 2) >>) >>, <<"emptyinloop">>),
+       Prog("x-blockinloop", << Loop(N, I, << Block(<< Upd(A, 1) >>), Decl(S32, "t", None), Upd(Bv, 2) >>) >>, <<"blockinloop">>),
+       Prog("x-ifinloopelse", << IfElse(Conds[1], << Upd(A, 1) >>, << Loop(N, I, << Upd(A, 2) >>), Upd(Bv, 3) >>) >>, <<"loopinelse">>),
        Prog("x-loopstore", << Loop(N, I, << Store(FALSE, 8, Bin("+", EA, I), CastE(U8, Bin("+", A, CastE(S32, I)))) >>), Set(Bv, Load(TRUE, 32, EA)) >>, <<"loopstore">>) >>
 
 Programs == Single \o Pairs \o Deep \o Special
